@@ -121,6 +121,60 @@ theorem without_retire_pass_current_dangles :
 example : let l : Listing := { current := [1, 2], merged := [0] }
     (∀ v, v ∈ l.current ++ l.merged → v ∈ [0, 1] ∨ v ∈ [2]) := by decide
 
+/-! ### an interrupted vacuum leaves nothing out of the next one's reach (F93) -/
+
+/-- **whatever is still there can still be found**: if the deletion order is closed at every
+    prefix and the chosen versions are closed under "supersedes" (they are whenever creation times
+    grow along the history), then after a crash at ANY point k of the deletion loop, a walk back
+    from anywhere to a version object that still exists meets no deleted version — the next
+    vacuum, walking back from the current version, reaches every chosen version that is left -/
+theorem interrupted_delete_keeps_rest_reachable (g : VGraph) (chosen order : List Nat) (k : Nat)
+    (hord : PrefixClosed g chosen order) (hsub : ∀ v, v ∈ order → v ∈ chosen)
+    (hclosed : ∀ c, c ∈ chosen → ∀ p, p ∈ g.parents c → p ∈ chosen)
+    (walk : List Nat) (hw : Walk g walk) (v : Nat) (hlast : walk.getLast? = some v)
+    (hv : v ∉ order.take k) : ∀ u, u ∈ walk → u ∉ order.take k := by
+  induction walk with
+  | nil => intro u hu; cases hu
+  | cons a rest ih =>
+    cases rest with
+    | nil =>
+      intro u hu
+      have : a = v := by simpa using hlast
+      rcases List.mem_singleton.mp hu with rfl
+      rw [this]; exact hv
+    | cons b rest' =>
+      obtain ⟨hab, hw'⟩ := hw
+      have hlast' : (b :: rest').getLast? = some v := by simpa [List.getLast?_cons_cons] using hlast
+      have ih' := ih hw' hlast'
+      intro u hu
+      rcases List.mem_cons.mp hu with rfl | hu
+      · intro hdel
+        have huc : u ∈ chosen := hsub u (List.mem_of_mem_take hdel)
+        have hbc : b ∈ chosen := hclosed u huc b hab
+        exact ih' b List.mem_cons_self (hord k u hdel b hab hbc)
+      · exact ih' u hu
+
+/-- the source's order on a history with a fork and a merge: 0 ← 1 ← {2, 3} ← 4 (4 merges 2 and 3),
+    all four old versions chosen, given in the worst order — emitted oldest first -/
+example :
+    let g : VGraph := { versions := [0, 1, 2, 3, 4], created := fun _ => 0,
+                        parents := fun c => if c = 4 then [2, 3] else if c = 3 then [1] else if c = 2 then [1] else if c = 1 then [0] else [] }
+    deletionOrder F g [3, 2, 1, 0] = [0, 1, 3, 2] := by decide
+
+/-- … and that order is closed at every prefix, while the order the versions came in is not:
+    interrupted after one deletion it has removed 3 and left 1 and 0 behind it (tests on one
+    history, not the general claim: the tie for the walk itself is the fact + the `vac` stream's
+    crash loop, which runs a complete vacuum after every third crash point) -/
+example :
+    let g : VGraph := { versions := [0, 1, 2, 3, 4], created := fun _ => 0,
+                        parents := fun c => if c = 4 then [2, 3] else if c = 3 then [1] else if c = 2 then [1] else if c = 1 then [0] else [] }
+    (∀ k, k ≤ 4 → ∀ c, c ∈ (deletionOrder F g [3, 2, 1, 0]).take k → ∀ p, p ∈ g.parents c → p ∈ [3, 2, 1, 0] →
+        p ∈ (deletionOrder F g [3, 2, 1, 0]).take k) ∧
+    ¬ (1 ∈ (deletionOrder { F with vacuumDeletesSupersededFirst := false } g [3, 2, 1, 0]).take 1) := by
+  decide
+
+theorem deletion_order_facts : F.vacuumDeletesSupersededFirst = true := by decide
+
 /-- **a version created at or after the cutoff is never removed**, whatever the shape of the
     history (forks, merges, several writers) and whatever times its successors carry — a
     successor may well be dated before the version it supersedes (the merge version of an open is
